@@ -224,6 +224,34 @@ func alphabet(keys int) []Op {
 	return append(a, Op{K: "oldest"}, Op{K: "youngest"}, Op{K: "rmoldest"}, Op{K: "rmyoungest"}, Op{K: "flush"})
 }
 
+
+// FuzzLRU (thorough tier): coverage-guided fuzzing over operation scripts with capacities 1..20
+// and 64..319, same run oracle.
+func FuzzLRU(f *testing.F) {
+	f.Add(uint8(2), []byte{0, 1, 0, 2, 0, 3, 1, 1, 0, 4, 5, 0, 6, 0})
+	f.Add(uint8(200), []byte{0, 9, 0, 200, 1, 9, 2, 200, 7, 0, 0, 1})
+	f.Fuzz(func(t *testing.T, capSel uint8, data []byte) {
+		if len(data) > 400 {
+			data = data[:400]
+		}
+		cp := int(capSel)%20 + 1
+		if capSel >= 128 {
+			cp = 64 + int(capSel)
+		}
+		keys := cp + cp/2 + 2
+		c := Case{Cap: cp, Keys: keys}
+		names := []string{"add", "get", "remove", "oldest", "youngest", "rmoldest", "rmyoungest", "flush", "add", "add", "get"}
+		for i := 0; i+1 < len(data); i += 2 {
+			c.Ops = append(c.Ops, Op{names[int(data[i])%len(names)], int(data[i+1]) * 7 % keys})
+		}
+		if len(c.Ops) == 0 {
+			return
+		}
+		w := core.Probe(func(sig, detail string) { t.Fatalf("VERIF-SIG %s\nVERIF-CASE %s\n%s", sig, core.JSON(c), detail) })
+		run(w, c)
+	})
+}
+
 func TestProp(t *testing.T) {
 	r := core.Start(t, "C07")
 	defer r.Finish()
